@@ -10,6 +10,7 @@ def main():
         c = Case(d["op"], d["args"])
     else:
         c = Case(a[0], a[1:])
+    common.lake_build(["oracle"])       # the full oracle (every handler), current
     common.evaluate(common.BUILD + "/harness", [c])
     print("verdict:", c.verdict)
     if c.op == "hist":
